@@ -85,6 +85,9 @@ func (g *gen) sub() bson.D {
 	if g.pct(60) {
 		d = append(d, bson.E{Key: "q", Value: g.str()})
 	}
+	if g.pct(35) {
+		d = append(d, bson.E{Key: "w", Value: g.arr()})
+	}
 	return d
 }
 
@@ -438,6 +441,12 @@ func (g *gen) engineTxn(db, c string) Op {
 		}
 		st.DB, st.C = db, c
 		op.Items = append(op.Items, st)
+		if g.pct(8) {
+			// a questionable document (MongoDB refuses an array as _id) for a collection that does not exist,
+			// after earlier steps: whether it is taken or refused, a refusal must leave the transaction's
+			// catalog as it was - no empty collection either
+			op.Items = append(op.Items, Op{K: "t.insert", DB: db, C: "c9", D: jd(bson.D{{Key: "_id", Value: bson.A{int32(7)}}, {Key: "a", Value: int32(1)}})})
+		}
 	}
 	return op
 }
@@ -483,7 +492,20 @@ func (g *gen) sortSpec() bson.D {
 }
 
 func (g *gen) proj() bson.D {
-	switch g.r.IntN(6) {
+	switch g.r.IntN(11) {
+	// array windows and first-match projections: the window is cut from the stored array and laid over the
+	// projected copy, which must not reach the stored document
+	case 6:
+		return bson.D{{Key: "t", Value: bson.D{{Key: "$slice", Value: pick(g.r, int32(-2), int32(-1), int32(0), int32(1), int32(2), int32(5))}}}}
+	case 7:
+		return bson.D{{Key: "t", Value: bson.D{{Key: "$slice", Value: bson.A{pick(g.r, int32(-3), int32(-1), int32(0), int32(1), int32(2)), pick(g.r, int32(1), int32(2), int32(3))}}}}, {Key: "s", Value: int32(0)}}
+	case 8:
+		// the window lies inside an embedded document that is included as a whole
+		return bson.D{{Key: "o", Value: int32(1)}, {Key: "o.w", Value: bson.D{{Key: "$slice", Value: pick(g.r, int32(1), int32(-1), int32(2))}}}}
+	case 9:
+		return bson.D{{Key: "o.w", Value: bson.D{{Key: "$slice", Value: pick(g.r, int32(1), int32(-1), int32(0))}}}}
+	case 10:
+		return bson.D{{Key: "items", Value: bson.D{{Key: "$elemMatch", Value: bson.D{{Key: "k", Value: g.num()}}}}}}
 	case 4:
 		// exclusion inside an embedded document (the stored document must stay whole)
 		return bson.D{{Key: "o.p", Value: int32(0)}}
